@@ -99,8 +99,7 @@ func runBatch(c *core.Child) {
 			continue
 		}
 		runOne(c, &list[idx], id)
-		if nInconcl >= 5 {
-			c.Inconclusive("batch stopped after 5 inconclusive schedules")
+		if stopBatch(c) {
 			return
 		}
 	}
@@ -117,9 +116,18 @@ func runBatch(c *core.Child) {
 		s := randomSched(core.NewRNG(c.Seed).Derive(core.HashString("C15/random"), uint64(idx)), maxN)
 		c.Feature("random-schedules")
 		runOne(c, &s, id)
-		if nInconcl >= 5 {
-			c.Inconclusive("batch stopped after 5 inconclusive schedules")
+		if stopBatch(c) {
 			return
 		}
 	}
+}
+
+// stopBatch ends a batch early when the tree is so broken that continuing
+// would only repeat the same report (the run is a failure either way).
+func stopBatch(c *core.Child) bool {
+	if nInconcl >= 5 {
+		c.Inconclusive("batch stopped after 5 inconclusive schedules")
+		return true
+	}
+	return c.Violations() >= 60
 }
